@@ -27,7 +27,9 @@ REQUIRED_REACH = ['outcome:answered', 'outcome:404', 'outcome:405', 'outcome:fel
                   'add:negative-index', 'add:overshooting-index', 'path-outside-ascii']
 PATTERNS = ['/a', '/a/<x>', '/<x>', '/<x>/<y>', '/a/<n:int>', '/<p*>', '/b', '/a/b']
 PATTERNS_SMALL = ['/a', '/a/<x>', '/<x>', '/<p*>']
-METHOD_SETS = [None, ['GET'], ['POST'], ['GET', 'POST'], ['PUT', 'DELETE']]
+METHOD_SETS = [None, ['GET'], ['POST'], ['GET', 'POST'], ['PUT', 'DELETE'],
+               # an empty collection restricts nothing; HEAD may be admitted without GET
+               [], ['HEAD'], ['POST', 'HEAD']]
 METHOD_SETS_SMALL = [None, ['GET'], ['POST', 'PUT']]
 BEHS = list(md.BEHAVIOURS)
 BEHS_SMALL = ['ok', 'raise_403', 'raise_nb_404', 'return_nb_403', 'uncaught']
